@@ -558,6 +558,8 @@ func (a *Emitter) Comment(s string) {
 const hextable = "0123456789abcdef"
 
 func (a *Emitter) EmitBytes(b []byte) {
+	// write first so that a block that does not fit leaves no listing lines behind:
+	_, _ = a.write(b)
 	if a.generateText {
 		a.emitBase()
 		s := strings.Builder{}
@@ -593,7 +595,6 @@ func (a *Emitter) EmitBytes(b []byte) {
 			a.lines = append(a.lines, cl)
 		}
 	}
-	_, _ = a.write(b)
 	a.address += uint32(len(b))
 }
 
